@@ -161,6 +161,24 @@ claim("C20", "symx+crosshair",
       "reals not floats (A1); decimal rendering of doubles is outside the encoding (bit-exact read-back only on the float64 code at the path samples)",
       "DESIGN.md §6 C20")
 
+claim("C14", "symx",
+      "symbolic execution of distance_to_surface with a free direction parameter and turn count (exact angle algebra); boundary-membership oracle decided by z3 (QF_NRA)",
+      "theta = atan2(2t, 1-t^2) + 2 pi k with t a free real and k in {-1,0,1} (thorough -2..2), i.e. any real angle incl. outside [0, 2 pi). Circle and "
+      "Ellipse fully free; ConvexPolygon on six concrete polygons (irregular, axis-aligned edges, offsets); ConvexSpheropolygon on three cores. The real code "
+      "runs through symx's angle algebra (arctan2, mod 2 pi, comparisons as half-plane + cross-product predicates, exact cos/sin/tan); claims: the point "
+      "centroid + d(cos, sin) lies on the boundary (all edge half-planes <= 0 and one = 0; ellipse form = 1; distance to the core = r).",
+      "reals not floats (A1; theta = +-pi/2 excluded for polygons); concrete polygons n <= 6; path budget",
+      "DESIGN.md §6 C14")
+claim("C15", "symx",
+      "symbolic execution of the real constructors (incl. the vendored Bentley-Ottmann sweep) with a free vertex / displacement / radius; accept-reject outcome per path vs an exact margin oracle decided by z3",
+      "Polygon(test_simple=True) on simple, bow-tie, pentagram and arrow cycles with one vertex free in [-8,8]^2 (xy-plane and a tilted plane): the sweep's "
+      "events, red-black tree and epsilon comparisons run under the path engine (hundreds of paths); on each path accepted => not clearly crossing, rejected "
+      "=> not clearly simple, any other outcome => input not margin-separated. Planarity with a free off-plane displacement; convex classes with a free "
+      "extra point and with every other order of a convex quadrilateral under free placement (stored counter-clockwise about the normal); nine radius / "
+      "axis / rounding-radius constructors with a free real; duplicates / too few vertices; stored arrays never alias the caller's, caller's arrays unchanged.",
+      "reals not floats (A1); margins on orientation products; one free vertex; qhull verdict = exact hull stub",
+      "DESIGN.md §6 C15")
+
 ALL = ["C%02d" % i for i in range(1, 21)]
 
 
